@@ -1,15 +1,15 @@
 #!/bin/sh
-# confirm_seeded.sh <id> <outdir> <pkgdir-for-demo> <run-regex>: verify in a fresh scratch worktree that (1) suite passes with the patch, (2) demo fails with it, (3) demo passes without it
+# confirm_seeded.sh <id> <outdir> <pkgdir-for-demo> <run-regex> [extra go test flags, e.g. -race]: verify in a fresh scratch worktree that (1) suite passes with the patch, (2) demo fails with it, (3) demo passes without it
 set -u
-ID="$1"; OUT="$2"; PKG="$3"; RUN="$4"
+ID="$1"; OUT="$2"; PKG="$3"; RUN="$4"; XF="${5:-}"
 export GOFLAGS=-mod=mod GOPROXY=off GOSUMDB=off GOTOOLCHAIN=local
 WT=$(mktemp -d /tmp/confirm-XXXX)
 git -C /repo worktree add -q --detach "$WT/wt" HEAD || exit 2
 cd "$WT/wt"
 cp "$OUT/demo_test.go" "$PKG/zz_demo_test.go"
-go test -count=1 -run "$RUN" "./$PKG/" >/dev/null 2>&1; A=$?
+go test $XF -count=1 -run "$RUN" "./$PKG/" >/dev/null 2>&1; A=$?
 git apply "$OUT/patch.diff" || { echo "patch does not apply"; }
-go test -count=1 -run "$RUN" "./$PKG/" >/dev/null 2>&1; B=$?
+go test $XF -count=1 -run "$RUN" "./$PKG/" >/dev/null 2>&1; B=$?
 rm "$PKG/zz_demo_test.go"
 go test -count=1 ./... >/dev/null 2>&1; C=$?
 cd /; git -C /repo worktree remove --force "$WT/wt"; rm -rf "$WT"
